@@ -26,7 +26,6 @@ import (
 	"fmt"
 	"os"
 	"path/filepath"
-	"strconv"
 	"strings"
 	"testing"
 	"time"
@@ -431,10 +430,8 @@ func (m *c22Machine) snapshotWithApplyDuringPersist() {
 	}
 	idx, term := l.fsmIdx.Load(), l.fsmTerm.Load()
 	cf := l.raft.GetConfiguration()
-	// (ConfigurationFuture.Index() of GetConfiguration is always 0; the index of
-	// the latest configuration is only published through Stats)
-	cfIdx, perr := strconv.ParseUint(l.raft.Stats()["latest_configuration_index"], 10, 64)
-	if cf.Error() != nil || perr != nil || cfIdx == 0 || idx == 0 || idx < cfIdx {
+	cfIdx := g8aConfigIndex(l)
+	if cf.Error() != nil || cfIdx == 0 || idx == 0 || idx < cfIdx {
 		return // raft itself would refuse to persist now
 	}
 	f, err := NewFSM(l).Snapshot()
